@@ -47,7 +47,7 @@ def run(ctx):
     FULL = dict(multi=True, oversize=True, wrong=True, maxord=8)
     jobs = [("model of the tree (reduce-only replacement 5ca726f8, clamped reduce-only fills eed2d42c), full menus: two-point entries, "
              "partial take-profits, oversize and wrong-side rows, edits in every hook; all C10 invariants",
-             dict(depth=ctx.pick(10, 12), edit=ctx.pick(1, 2), invariants=K.INV_C10, **FULL)),
+             dict(depth=ctx.pick(9, 11), edit=ctx.pick(1, 2), invariants=K.INV_C10, **FULL)),
             ("model of the tree, one-point entries, deeper; all C10 invariants", dict(depth=ctx.pick(10, 13), edit=1, invariants=K.INV_C10)),
             # the model of the tree BEFORE the two repairs: its counter-examples are replayed below and must NOT be reproduced any more
             ("pre-fix model, wrong-side rows: ExitsReduceOnly", dict(depth=8, wrong=True, edit=0, rrepl=False, rclamp=False, invariants=["ExitsReduceOnly"])),
@@ -80,7 +80,7 @@ def run(ctx):
     reproduced = len(ctx.violations) > before
     ctx.coverage["model_counterexamples"] = [{"instance": lab, "invariant": inv, "actions": [a["a"] for a in h]} for lab, inv, h in cex]
     ctx.coverage["model_counterexamples_reproduced_by_the_code"] = reproduced
-    hists, rsim = K.simulated_histories(ctx, ctx.pick(120, 1500), ctx.pick(12, 16), ctx.seed, edit=ctx.pick(1, 2), **FULL)
+    hists, rsim = K.simulated_histories(ctx, ctx.pick(120, 700), ctx.pick(12, 16), ctx.seed, edit=ctx.pick(1, 2), **FULL)
     sim_items = [{"id": 200000 + j, "hist": h, "B": K.BASE, "src": "simulated behaviour", "compare": True} for j, h in enumerate(hists)]
     sim_traces, sim_ids = K.run_replays(ctx, sim_items, compare=True)
     bad_r, st_r = K.judge(ctx, "TraceRouting", sim_traces, "R-sim", sim_ids, parts=ctx.pick(4, 12))
